@@ -275,6 +275,22 @@ Definition wf_node (n : netlist) (nd : node) : bool :=
 
 Definition wf (n : netlist) : bool := forallb (wf_node n) (nodes n).
 
+(* A register, pin or memory port with a connected input but WITHOUT a clock is never compared with
+   any clock by the base rule (CdcSound.clockless_sink_unchecked).  Every such node built by the
+   frontend, and every pin generated by MemoryGroup::replaceWithIOPins for an external memory, must
+   therefore carry the clock of the port it belongs to. *)
+Definition is_sink_kind (k : kind) : bool :=
+  match k with KPin | KReg | KMemPort => true | _ => false end.
+
+Definition has_input (nd : node) : bool :=
+  existsb (fun d => match d with Some _ => true | None => false end) (nins nd).
+
+Definition sink_clocked (nd : node) : bool :=
+  negb (is_sink_kind (nkind nd) && has_input nd)
+  || match own_clock nd with Some _ => true | None => false end.
+
+Definition sinks_clocked (n : netlist) : bool := forallb sink_clocked (nodes n).
+
 (* ------------------------------------------------------------------ *)
 (* Finite maps keyed by ports                                           *)
 
